@@ -504,8 +504,16 @@ impl<'a> G<'a> {
                     } else {
                         String::new()
                     };
+                    // the condition comes in several shapes (comparison, match with literal
+                    // arms, if, &&): each is re-evaluated before every iteration and ends the loop
+                    let cond = match self.p.below(5) {
+                        0 => format!("(match p(\"{t}\", ref_get({k})) {{ 0 => true, 1 => {}, _ => false }})", if bound >= 2 { "true" } else { "false" }),
+                        1 => format!("(if p(\"{t}\", ref_get({k})) < {bound} {{ true }} else {{ false }})"),
+                        2 => format!("((ref_get({k}) < {bound}) && pb(\"{t}\", true))"),
+                        _ => format!("p(\"{t}\", ref_get({k})) < {bound}"),
+                    };
                     s.push_str(&format!(
-                        "{pad}while p(\"{t}\", ref_get({k})) < {bound} {{\n{body}{pad}    ref_set({k}, ref_get({k}) + 1){tail}\n{pad}}};\n"
+                        "{pad}while {cond} {{\n{body}{pad}    ref_set({k}, ref_get({k}) + 1){tail}\n{pad}}};\n"
                     ));
                 }
                 7 => {
